@@ -15,7 +15,9 @@ void *__real_malloc(size_t);
 void *__real_calloc(size_t, size_t);
 void *__real_realloc(void *, size_t);
 char *__real_strdup(const char *);
+void __real_free(void *);
 static unsigned long alloc_count, alloc_fail_at, alloc_failed;
+static long alloc_live;    /* library blocks currently allocated (needs --wrap=free) */
 static unsigned long alloc_mask = ~0UL; static unsigned alloc_planlen, alloc_planpos;
 static int alloc_should_fail(void)
 {
@@ -28,16 +30,24 @@ static int alloc_should_fail(void)
 	}
 	return 0;
 }
-void *__wrap_malloc(size_t n) { return alloc_should_fail() ? NULL : __real_malloc(n); }
-void *__wrap_calloc(size_t a, size_t b) { return alloc_should_fail() ? NULL : __real_calloc(a, b); }
-void *__wrap_realloc(void *p, size_t n) { return alloc_should_fail() ? NULL : __real_realloc(p, n); }
+void *__wrap_malloc(size_t n) { void *r; if (alloc_should_fail()) return NULL; r = __real_malloc(n); if (r) ++alloc_live; return r; }
+void *__wrap_calloc(size_t a, size_t b) { void *r; if (alloc_should_fail()) return NULL; r = __real_calloc(a, b); if (r) ++alloc_live; return r; }
+void *__wrap_realloc(void *p, size_t n)
+{
+	void *r;
+	if (alloc_should_fail()) return NULL;
+	r = __real_realloc(p, n);
+	if (!p && r) ++alloc_live;
+	return r;
+}
+void __wrap_free(void *p) { if (p) --alloc_live; __real_free(p); }
 char *__wrap_strdup(const char *s)
 {
 	size_t n = strlen(s) + 1; char *r;
 	if (alloc_should_fail()) return NULL;
-	r = __real_malloc(n); if (r) memcpy(r, s, n); return r;
+	r = __real_malloc(n); if (r) { memcpy(r, s, n); ++alloc_live; } return r;
 }
 static void alloc_plan(unsigned long mask, unsigned len) { alloc_mask = mask; alloc_planlen = len; alloc_planpos = 0; }
 static void alloc_reset(void) { alloc_planlen = alloc_planpos = 0; alloc_fail_at = 0; alloc_count = 0; }
-#define ALLOC_WRAP_LDFLAGS "-Wl,--wrap=malloc,--wrap=calloc,--wrap=realloc,--wrap=strdup"
+#define ALLOC_WRAP_LDFLAGS "-Wl,--wrap=malloc,--wrap=calloc,--wrap=realloc,--wrap=strdup,--wrap=free"
 #endif
